@@ -12,6 +12,7 @@ from sim import adapters, workload
 from sim.core import EndRun, close, np_seed
 
 PROP = "C18"
+FORKS = True      # snapshot / restore events (core.Ctx.maybe_fork)
 LEVEL = "exploration"
 RULE = (
     "HDDDM / CDBD (detect_batch 2, 3), KdqTreeBatch, NNDVI x randomised knobs x seeded batch histories (equal and unequal "
@@ -88,6 +89,7 @@ def run(case, ctx):
     drifts = compared = 0
     for i, (b, perm, seed) in enumerate(case["events"]):
         ctx.step = i
+        P = ctx.maybe_fork(P)
         X = np.array(b, dtype=float)
         Xp = X[perm]
         if i == 0:
